@@ -1,0 +1,15 @@
+//go:build verif
+
+package parser
+
+import (
+	"github.com/antlr/antlr4/runtime/Go/antlr/v4"
+	"github.com/modernizing/coca/pkg/infrastructure/container"
+)
+
+// VerifResetPython puts the lexer's package-level token queue and indentation stack back
+// to what a fresh process has.
+func VerifResetPython() {
+	indents = container.NewStack()
+	buffer = make([]antlr.Token, 32)
+}
